@@ -588,6 +588,75 @@ def _ranges(xs):
     return ','.join('%d-%d' % (a, b) if a != b else str(a) for a, b in out)
 
 
+def check_inverse_trig_domains(ctx, db):
+    """R-DOMAIN: acos / asin return NaN outside [-1, 1]. In the curve and primitive code every such call is either guarded - its
+    argument (the same expression or variable) is compared with -1 / 1 on the way (`c < -1 ? M_PI : acos(c)`, a clamp statement) -
+    or NaN-contained: the result is only used under a comparison of the result itself (`if (theta > eps) {...}`: false for NaN, the
+    other branch does not use it). `acos(1 - curvature * tolerance)` with an unbounded product is neither: a tolerance larger than
+    twice the local radius of curvature gives a NaN step, a NaN vertex and a section that does not end at its end point."""
+    n = 0
+    for f in db.functions:
+        if f.body is None or f.relfile() not in ('src/curve.cpp', 'src/polygon.cpp', 'src/utils.cpp', 'src/flexpath.cpp', 'src/robustpath.cpp'):
+            continue
+        for c in f.walk():
+            if c.k != 'CallExpr' or (c.callee or '') not in ('acos', 'asin'):
+                continue
+            n += 1
+            ctx.touch(f)
+            arg = _strip_casts(c.args[0])
+            atext = norm(arg.text())
+            names = {x.n for x in arg.walk() if x.k == 'DeclRefExpr'}
+            guarded = False
+            # (a) a condition on the way (enclosing if / ?: / guard clause) compares the argument with -1 or 1
+            conds = [cn for cn, pol in tables.path_conds(c)]
+            y, prev = c.parent, c
+            while y is not None:
+                if y.k == 'ConditionalOperator' and prev is not y.child('cond'):
+                    conds.append(y.child('cond'))
+                prev, y = y, y.parent
+            for cn in conds:
+                for b in cn.walk():
+                    if b.k == 'BinaryOperator' and b.op in ('<', '>', '<=', '>='):
+                        l, r = _strip_casts(b.child('lhs')), _strip_casts(b.child('rhs'))
+                        for u, v in ((l, r), (r, l)):
+                            lim = v.fv if v.fv is not None else v.cv
+                            if v.k == 'UnaryOperator' and v.op == '-' and v.child('sub') is not None:
+                                sv = _strip_casts(v.child('sub'))
+                                lim = -(sv.fv if sv.fv is not None else (sv.cv or 0))
+                            if lim in (1, -1, 1.0, -1.0) and (norm(u.text()) == atext or (u.k == 'DeclRefExpr' and u.n in names and len(names) == 1)):
+                                guarded = True
+            # (a') a clamp statement on the argument variable before the call: `if (x < -1) x = -1;`
+            if not guarded and arg.k == 'DeclRefExpr':
+                for i in f.walk():
+                    if i.k == 'IfStmt' and i.id < c.id:
+                        for b in i.child('cond').walk():
+                            if b.k == 'BinaryOperator' and b.op in ('<', '>', '<=', '>=') and any(_strip_casts(z).k == 'DeclRefExpr' and _strip_casts(z).d == arg.d for z in (b.child('lhs'), b.child('rhs'))):
+                                if any(is_assign(a_) and _strip_casts(a_.child('lhs')).k == 'DeclRefExpr' and _strip_casts(a_.child('lhs')).d == arg.d for a_ in i.child('then').walk()):
+                                    guarded = True
+            # (b) NaN-contained: the result initialises a local whose every use is under a comparison of that local
+            contained = False
+            p_ = c.parent
+            while p_ is not None and p_.k in ('ImplicitCastExpr', 'CStyleCastExpr'):
+                p_ = p_.parent
+            if p_ is not None and p_.k == 'VarDecl':
+                uses = [x for x in f.walk() if x.k == 'DeclRefExpr' and x.d == p_.d]
+                def under_own_test(u):
+                    for cn, pol in tables.path_conds(u):
+                        if pol and any(b.k == 'BinaryOperator' and b.op in ('<', '>', '<=', '>=') and any(_strip_casts(z).k == 'DeclRefExpr' and _strip_casts(z).d == p_.d for z in (b.child('lhs'), b.child('rhs'))) for b in cn.walk()):
+                            return True
+                    return False
+                def is_the_test(u):
+                    q = u.parent
+                    while q is not None and q.k in ('ImplicitCastExpr',):
+                        q = q.parent
+                    return q is not None and q.k == 'BinaryOperator' and q.op in ('<', '>', '<=', '>=')
+                contained = bool(uses) and all(under_own_test(u) or is_the_test(u) for u in uses)
+            ctx.check(guarded or contained, 'R-DOMAIN', '%s/%s@%s' % (f.qn.replace('gdstk::', ''), c.callee, c.loc()), c.loc(),
+                      '%s(%s): the argument is %s' % (c.callee, atext[:50], 'compared with the end of the domain on the way' if guarded else 'not bounded, but a NaN result cannot reach any computation (every use is under a comparison of the result)'),
+                      '%s(%s): nothing bounds the argument to [-1, 1] and the result flows on unchecked: outside the domain the result is NaN (for a section sampler: NaN step, NaN vertex, the section does not end at its end point)' % (c.callee, atext[:60]))
+    ctx.require('R-DOMAIN inverse trigonometric calls', n, 4)
+
+
 def run(ctx):
     db = ctx.db
     ctx.attempt(check_hobby_indices, ctx, db)
@@ -608,6 +677,7 @@ def run(ctx):
     ctx.attempt(check_samplers, ctx, db)
     ctx.attempt(check_dimensions, ctx, db)
     ctx.attempt(check_section_algebra, ctx, db)
+    ctx.attempt(check_inverse_trig_domains, ctx, db)
     fns = [f for f in db.functions if f.body is not None and f.relfile() in ('src/polygon.cpp', 'src/curve.cpp')]
     n = check_clamp_chains(ctx, fns)
     ctx.require('R-CLAMP.chain clamp statements', n, 20)
